@@ -10,6 +10,7 @@ open Gwb
 #print axioms C13_bezier_index_in_range
 #print axioms C13_curved_planes_in_range
 #print axioms C13_line_no_internal
+#print axioms C13_world_query_no_internal
 #print axioms C13_world_no_internal
 #print axioms C13_world_temperature_no_internal
 #print axioms C13_table_fraction_divisor_pos
@@ -26,6 +27,7 @@ open Gwb
 #check @C13_bezier_index_in_range
 #check @C13_curved_planes_in_range
 #check @C13_line_no_internal
+#check @C13_world_query_no_internal
 #check @C13_world_no_internal
 #check @C13_world_temperature_no_internal
 #check @C13_table_fraction_divisor_pos
